@@ -18,6 +18,7 @@ RULE = ("task lists: EVERY list of <=L tasks over 8 concrete tasks of the three 
         "sampler's internal threshold, and EVERY shot count 1..130 on two basis states with bit-exact comparison; exact values: circuits x operators incl. X/Y terms and constants, tasks with shot numbers None/0/5 vs psi^dagger M psi; binding: every list of <=3 tasks "
         "(two sharing ONE circuit object, zero-shot and constant-operator tasks with parametrised circuits) x per-task maps. non-trivial = list mixing at least two task kinds / non-palindromic basis state")
 RULE += ' Also: unsimplified operators repeating a support with different coefficients; a second estimation after the caller shifted the first results in place; symbols with assumptions in symbol maps.'
+RULE += ' Round 7: numpy-integer shot counts; circuits a few 1e-9 apart on one simulator; the task list object compared after binding, second binding call with other values.'
 RULE += ' Round 6: measurable tasks whose non-constant terms all have coefficient 0; exact values on states with complex amplitudes (RX / S / T / asymmetric custom gates).'
 RULE += ' Round 5: bare multi-qubit PauliTerm operators of measured tasks; a second exact evaluation after the operators were rescaled in place; basis states of 9-10 qubits with terms coupling qubits 8+ to lower ones.'
 ASSUMPTIONS = ["sampling randomness scripted with default answers (basis states have a single outcome with p>1e-12)", "the runner records what it is asked to run through an overriding subclass that only logs and delegates"]
@@ -44,6 +45,9 @@ def tasks_pool():
     # a bare PauliTerm (not a sum) on two / three qubits as the operator of a measured task: exactly one value
     T.append((EstimationTask(Z([0, 2], 1.5), C.Circuit([C.X(0)], n_qubits=3), 3), "measured", [-1.5]))
     T.append((EstimationTask(Z([2, 0, 1], -0.25), C.Circuit([C.X(1), C.X(2)], n_qubits=3), 2), "measured", [-0.25]))
+    # shot counts that come out of an allocation array: numpy integers are positive shot counts like any other
+    T.append((EstimationTask(PauliSum([Z([0], 2.0), Z([1], -0.5)]), C.Circuit([C.X(0)], n_qubits=2), np.int64(3)), "measured", [-2.0, -0.5]))
+    T.append((EstimationTask(Z([1], 1.25), C.Circuit([C.X(1)], n_qubits=2), np.int32(2)), "measured", [-1.25]))
     return T
 
 
@@ -233,6 +237,27 @@ def exact_case(case):
     return {"ok": True, "nt": True, "ops": 2 * len(tasks), "out": "exact"}
 
 
+def near_circuits_case(case):
+    """{'theta': t0, 'delta': d, 'n': count}: exact expectation values of <Z> after RX(t0 + j*d), j = 0..n-1 - circuits that differ by less than the library's own gate-equality
+    tolerance (a finite-difference stencil) - evaluated one after the other on ONE simulator: each value is cos of ITS OWN angle (to 1e-10)"""
+    from orquestra.quantum import circuits as C
+    from orquestra.quantum.api.estimation import EstimationTask
+    from orquestra.quantum.estimation import calculate_exact_expectation_values
+    from orquestra.quantum.operators import PauliTerm
+    from orquestra.quantum.runners.symbolic_simulator import SymbolicSimulator
+    sim = SymbolicSimulator()
+    angles = [case["theta"] + j * case["delta"] for j in range(case["n"])]
+    tasks = [EstimationTask(PauliTerm({0: "Z"}, 1.0), C.Circuit([C.RX(a_)(0)], n_qubits=1), None) for a_ in angles]
+    vals = [float(np.asarray(r.values).reshape(-1)[0].real) for r in calculate_exact_expectation_values(sim, tasks)]
+    vals2 = [float(np.asarray(calculate_exact_expectation_values(sim, [t_])[0].values).reshape(-1)[0].real) for t_ in tasks[::-1]][::-1]
+    direct = [float(sim.get_exact_expectation_values(t_.circuit, t_.operator).values[0].real) if hasattr(sim.get_exact_expectation_values(t_.circuit, t_.operator), "values") else float(np.real(sim.get_exact_expectation_values(t_.circuit, t_.operator))) for t_ in tasks]
+    for nm, got in (("one call", vals), ("one call per task, reversed order", vals2), ("simulator.get_exact_expectation_values", direct)):
+        for a_, v_ in zip(angles, got):
+            if abs(v_ - np.cos(a_)) > 1e-10:
+                return {"ok": False, "msg": "exact <Z> after RX(%.12f) (%s; circuits %g apart on one simulator) is %.12f, cos of its own angle is %.12f" % (a_, nm, case["delta"], v_, np.cos(a_)), "sig": "exact:near-circuits"}
+    return {"ok": True, "nt": True, "ops": 3 * len(tasks), "out": "near"}
+
+
 def wide_case(case):
     """{'n': n, 'ones': [qubits set to 1], 'terms': [[coef, [qubits]] ...], 'shots': k}: basis states of 9-11 qubits and Z-terms coupling a qubit >= 8 with lower ones:
     exact values and estimates by averaging are coefficient x eigenvalue, one value per term"""
@@ -279,7 +304,19 @@ def bind_case(case):
     maps = [{th: m[0], ph: m[1]} for m in case["maps"]]
     maps_before = [dict(m) for m in maps]
     ops_before = [[str(o) for o in t.circuit.operations] for t in tasks]
-    out = evaluate_estimation_circuits(list(tasks), maps)
+    given = list(tasks)      # the very list object the caller hands over - and keeps
+    out = evaluate_estimation_circuits(given, maps)
+    if len(given) != len(tasks) or any(a is not b for a, b in zip(given, tasks)):
+        return {"ok": False, "msg": "evaluate_estimation_circuits replaced entries of the caller's task list", "sig": "bind:list-mutated"}
+    if maps:
+        # a second call on the same list with other values (the next step of an optimisation loop) binds those values
+        maps2 = [{th: m[th] + 0.5, ph: m[ph] - 0.25} for m in maps]
+        out2 = evaluate_estimation_circuits(given, maps2)
+        for k2, (t2, o2, m2) in enumerate(zip(tasks, out2, maps2)):
+            exp2 = [sympy.sympify(p).subs(m2) for op in t2.circuit.operations for p in op.params]
+            got2 = [p for op in o2.circuit.operations for p in op.params]
+            if len(got2) != len(exp2) or any(abs(complex(sympy.sympify(a)) - complex(b)) > 1e-12 for a, b in zip(got2, exp2)):
+                return {"ok": False, "msg": "second call on the same task list with other values: task %d is not bound with them" % k2, "expected": str(exp2), "observed": str(got2), "sig": "bind:second-call"}
     if len(out) != len(tasks):
         return {"ok": False, "msg": "%d tasks returned for %d" % (len(out), len(tasks)), "sig": "bind:length"}
     for k, (t, o, m) in enumerate(zip(tasks, out, maps)):
@@ -294,14 +331,15 @@ def bind_case(case):
     return {"ok": True, "nt": len(tasks) >= 2, "ops": len(tasks), "out": "bind"}
 
 
-FUNCS = {"zero_coefficient_tasks": zero_coef_case, "wide": wide_case, "task_lists": list_case, "split": split_case, "shot_sweep": shots_case, "exact": exact_case, "binding": bind_case}
+FUNCS = {"near_circuits": near_circuits_case, "zero_coefficient_tasks": zero_coef_case, "wide": wide_case, "task_lists": list_case, "split": split_case, "shot_sweep": shots_case, "exact": exact_case, "binding": bind_case}
 
 
 def run(run):
     thorough = run.tier == "thorough"
     L = 5 if thorough else 4
     lists = [list(c) for k in range(0, L + 1) for c in itertools.product(range(8), repeat=k)] + [list(c) for k in (1, 2, 3) for c in itertools.product(range(9), repeat=k) if 8 in c] + \
-            [list(c) for k in (1, 2, 3) for c in itertools.product((0, 3, 5, 9, 10), repeat=k) if 9 in c or 10 in c]
+            [list(c) for k in (1, 2, 3) for c in itertools.product((0, 3, 5, 9, 10), repeat=k) if 9 in c or 10 in c] + \
+            [list(c) for k in (1, 2, 3) for c in itertools.product((0, 3, 5, 11, 12), repeat=k) if 11 in c or 12 in c]
     secs = [Section("task_lists", [{"tasks": l} for l in lists], list_case, horizon=120, desc="every task list of length <= %d over 8 tasks of the three kinds" % L),
             Section("split", [{"tasks": l} for l in lists if len(l) <= 3], split_case, desc="split_estimation_tasks_to_measure partitions positions in ascending order")]
     zc = [list(c) for k in (1, 2, 3) for c in itertools.product(range(7), repeat=k) if any(i >= 3 for i in c)]
@@ -321,6 +359,8 @@ def run(run):
           [{"gate": G("H"), "q": [1]}, {"gate": G("T"), "q": [1]}, {"gate": G("RX", 0.4), "q": [0]}], [{"gate": G("custom1"), "q": [0]}, {"gate": G("custom2"), "q": [1, 0]}],
           [{"gate": G("RX", 0.7), "q": [2]}, {"gate": G("CNOT"), "q": [2, 0]}, {"gate": G("RZ", 0.9), "q": [0]}, {"gate": G("RX", 0.3), "q": [0]}]]
     ex += [{"ops": ops_, "n": n_, "operators": list(range(len(OPS_XY)))} for ops_ in cx for n_ in (2, 3) if max(q_ for o_ in ops_ for q_ in o_["q"]) < n_]
+    secs.append(Section("near_circuits", [{"theta": t_, "delta": d_, "n": 4} for t_ in (np.pi / 2, 0.7, 2.2) for d_ in (8e-9, 3e-9, -6e-9, 5e-8)], near_circuits_case,
+                        desc="exact values for circuits whose angles differ by 3e-9 .. 5e-8 (a finite-difference stencil) on one simulator: each value belongs to its own circuit"))
     secs.append(Section("exact", ex, exact_case, horizon=120, desc="calculate_exact_expectation_values vs psi^dagger M psi (operators with X/Y terms)"))
     wd = []
     for n in ((9, 10, 11) if thorough else (9, 10)):
